@@ -57,6 +57,12 @@ SPEC_NAMES = {
     "forall_emitted",
     "value_of",
     "str_contains",
+    "sel",
+    "forall_int",
+    "exists_int",
+    "yielded",
+    "trace_any",
+    "trace_all",
 }
 
 
@@ -206,6 +212,8 @@ class SpecMixin:
     def sp_in_map(self, e, fr):
         m = self.ev(e.args[0], fr)
         k = self.ev(e.args[1], fr)
+        if not getattr(self, "in_quant", False):
+            self.ctx.add_key(z3_of_int(k))
         return mk_bool(z3.Select(m.has, z3_of_int(k)))
 
     def sp_map_same(self, e, fr):
@@ -261,3 +269,87 @@ class SpecMixin:
             f2.old = fr.old
             out.append(self._b(self.ev(e.args[2], f2)))
         return mk_bool(z3.And(*out)) if out else True
+
+    def sp_sel(self, e, fr):
+        a = self.ev(e.args[0], fr)
+        k = z3_of_int(self.ev(e.args[1], fr))
+        if isinstance(a, SymMap):
+            a = a.has
+        if not getattr(self, "in_quant", False):
+            self.ctx.add_key(k)
+        r = z3.Select(a, k)
+        if r.sort() == z3.BoolSort():
+            return mk_bool(r)
+        return mk_int(r)
+
+    def _quant(self, e, fr, forall):
+        """forall_int / exists_int over map keys.  Quantifiers are eliminated: in proof position
+        the bound variable becomes a fresh constant (registered as index term); in assumption
+        position the fact is instantiated at every index term of the path, now and later.  Only
+        use them in positive position of a clause (top level or consequent of implies)."""
+        var = e.args[0].value
+        mode = getattr(self, "qmode", "prove")
+        # evaluate the body ONCE, now, with a symbolic bound variable: the formula must speak about
+        # the state at this point, not about whatever the objects look like when it is instantiated
+        bv = z3.Int(self.ctx.fresh_name("_bv_" + var))
+        f2 = Frame(fr.fn_qual, fr.module, spec=True)
+        f2.locals.update(fr.locals)
+        f2.locals[var] = SymInt(bv)
+        f2.old = fr.old
+        prev = getattr(self, "in_quant", False)
+        self.in_quant = True
+        try:
+            formula = self._b(self.ev(e.args[1], f2))
+        finally:
+            self.in_quant = prev
+
+        def body_at(term):
+            if isinstance(term, int):
+                term = z3.IntVal(term)
+            return z3.substitute(formula, (bv, term))
+
+        if forall == (mode == "prove"):
+            # prove forall / assume exists: skolem constant
+            sk = self.ctx.fresh("_sk_" + var, z3.IntSort())
+            self.ctx.add_key(sk)
+            return mk_bool(body_at(sk))
+        # assume forall / prove exists: instantiate at the index terms
+        if forall:
+            self.ctx.qfacts.append(body_at)
+            insts = [body_at(k) for k in list(self.ctx.keys)]
+            return mk_bool(z3.And(*insts)) if insts else True
+        insts = [body_at(k) for k in list(self.ctx.keys)]
+        return mk_bool(z3.Or(*insts)) if insts else False
+
+    def sp_forall_int(self, e, fr):
+        return self._quant(e, fr, True)
+
+    def sp_exists_int(self, e, fr):
+        return self._quant(e, fr, False)
+
+    def sp_yielded(self, e, fr):
+        return getattr(self, "n_yields", 0) > 0
+
+    def _trace_q(self, e, fr, is_any):
+        """trace_any("h2", "x", <expr over x>) / trace_all(...) over the events recorded in this
+        call (entries are python tuples / objects)"""
+        name = e.args[0].value
+        var = e.args[1].value
+        out = []
+        for x in self.traces.get(name, []):
+            if isinstance(x, TraceGap):
+                raise ContractError("trace quantifier over a trace with a loop gap")
+            f2 = Frame(fr.fn_qual, fr.module, spec=True)
+            f2.locals.update(fr.locals)
+            f2.locals[var] = x
+            f2.old = fr.old
+            out.append(self._b(self.ev(e.args[2], f2)))
+        if not out:
+            return not is_any
+        return mk_bool(z3.Or(*out) if is_any else z3.And(*out))
+
+    def sp_trace_any(self, e, fr):
+        return self._trace_q(e, fr, True)
+
+    def sp_trace_all(self, e, fr):
+        return self._trace_q(e, fr, False)
